@@ -68,6 +68,16 @@ class Prog:
             self.scopes[sid].close_st = len(self.sts)
         self.sts.append(St(T(text), closes=sids, label=label, kind="close"))
 
+    def guard(self, text):
+        """a SELECT TYPE guard: closes the region of the previous guard (a scope of its own in the index) and opens the next"""
+        sid = self.stack.pop()
+        self.scopes[sid].close_st = len(self.sts)
+        sc = Scope(len(self.scopes), "select", "#SELECT", self.stack[-1])
+        self.scopes.append(sc)
+        sc.open_st = len(self.sts)
+        self.sts.append(St(T(text), opens=sc.sid, closes=[sid], kind="open"))
+        self.stack.append(sc.sid)
+
     def stmt(self, text, decl=None, kind="stmt"):
         self.sts.append(St(T(text), decl=decl, kind=kind))
         return len(self.sts) - 1
@@ -173,12 +183,19 @@ def add_item(p: Prog, item: int, ev: int, ctr: list, depth=0, nested=-1):
         p._close("continue", label=lab)
     elif item == 15:  # SELECT TYPE whose CLASS DEFAULT guard is not the last one
         p._open("select", "#SELECT", f"select type (z{k} => x{k})")
-        p.stmt("class default")
+        def region_var():  # the associate name is an entity of every guard region, declared on the guard's line
+            sid = p.stack[-1]
+            p.vars.append((f"z{k}", sid, p.scopes[sid].open_st, "class"))
+
+        p._open("select", "#SELECT", "class default")  # each guard's region is a scope up to the next guard
+        region_var()
         p.stmt(f"y{k} = 0")
-        p.stmt("type is (integer)")
+        p.guard("type is (integer)")
+        region_var()
         inner()
-        p.stmt("type is (real)")
-        p.end(ev)
+        p.guard("type is (real)")
+        region_var()
+        p.end(ev, n=2)
     elif item == 16:  # assignments to variables whose names start like keywords
         p.stmt(f"blocks({k}) = 2")
         p.stmt(f"interfaces({k}) = 2")
@@ -254,7 +271,9 @@ class Layout:
 
     def __init__(self, form="free", case=0, blank_before=None, comment_before=None, trail_blank=False,
                  trail_comment=None, split=None, lead_amp=False, join=None, indent=2, eol="\n", fixed_cchar="C",
-                 fixed_cont="&", cont_gap=None, cont_comment=None, base_indent=0):
+                 fixed_cont="&", cont_gap=None, cont_comment=None, base_indent=0, split2=None, cont_gap2=None):
+        self.split2 = split2                  # second token boundary (> the first) of the split statement: three pieces
+        self.cont_gap2 = cont_gap2            # gap line between the second and the third piece
         self.cont_comment = cont_comment      # trailing comment after the '&' of a continued line (may itself contain '&')
         self.base_indent = base_indent        # blanks in front of every free-form line
         self.cont_gap = cont_gap              # a blank / whitespace-only / comment line between continuation lines
@@ -308,17 +327,27 @@ def layout(p: Prog, lay: Layout):
         line_of[i] = len(lines)
         if lay.split is not None and lay.split[0] == i and 0 < lay.split[1] < len(toks):
             k = lay.split[1]
-            first, second = "".join(toks[:k]), "".join(toks[k:])
+            k2 = lay.split2 if (lay.split2 is not None and k < lay.split2 < len(toks)) else None
+            first, second = "".join(toks[:k]), "".join(toks[k:k2] if k2 else toks[k:])
+            third = "".join(toks[k2:]) if k2 else None
             if fixed:
                 lines.append(ind + first)
                 if lay.cont_gap is not None:
                     lines.append(lay.fixed_cchar + lay.cont_gap if lay.cont_gap.strip() else lay.cont_gap)
                 lines.append("     " + lay.fixed_cont + " " * len(ind[6:]) + second)
+                if third is not None:
+                    if lay.cont_gap2 is not None:
+                        lines.append(lay.fixed_cchar + lay.cont_gap2 if lay.cont_gap2.strip() else lay.cont_gap2)
+                    lines.append("     " + lay.fixed_cont + " " * len(ind[6:]) + third)
             else:
                 lines.append(ind + first + " &" + (lay.cont_comment or ""))
                 if lay.cont_gap is not None:
                     lines.append(lay.cont_gap)
-                lines.append(ind_cont + ("& " if lay.lead_amp else "  ") + second)
+                lines.append(ind_cont + ("& " if lay.lead_amp else "  ") + second + (" &" if third is not None else ""))
+                if third is not None:
+                    if lay.cont_gap2 is not None:
+                        lines.append(lay.cont_gap2)
+                    lines.append(ind_cont + ("& " if lay.lead_amp else "  ") + third)
         elif lay.join == i and i + 1 < n and not fixed and not p.sts[i + 1].label and p.sts[i + 1].kind != "x":
             nxt = p.sts[i + 1]
             line_of[i + 1] = len(lines)
